@@ -52,6 +52,8 @@ U = {
     # a rule written with a trailing slash is a rule of its own (request paths are stripped, so it matches nothing - but it is
     # registered, found by rule and removed under exactly this spelling)
     '/q/z/': (L('q/z/'),),
+    # the root rule (its pattern is the empty string)
+    '/': (L(''),),
 }
 # the rule '/a/{x}' in the two other spellings: one pattern, one route, whichever spelling registers, finds or removes it
 U_SPELL = {'/a/<x>': (L('a/'), W('x')), '/a/:x': (L('a/'), W('x'))}
@@ -66,7 +68,7 @@ _canon = Canon(tb=False)
 
 def menu():
     m = [('add', r) for r in U]
-    m += [('addn', '/a/b', 'n1'), ('addn', '/a/{x}', 'n2'), ('addn', '/q/z', 'n1'), ('addn', '/a/b', 'n3')]   # n3 registers PUT: an alias
+    m += [('addn', '/a/b', 'n1'), ('addn', '/a/{x}', 'n2'), ('addn', '/q/z', 'n1'), ('addn', '/a/b', 'n3'), ('addn', '/', 'n2')]   # n3 registers PUT: an alias
     # the same name repeated for another verb of the same rule; a name moved to another rule by an overwriting registration
     m += [('addnp', '/a/b', 'n1'), ('addno', '/q/z', 'n1'), ('addno', '/a/b', 'n2')]
     m += [('addo', '/a/b'), ('addo', '/a/{x}')]
